@@ -144,13 +144,24 @@ def main():
 
     g = NGhost()
 
+    class _PreFs(dict):
+        """files a contract's setup puts into the working directory BEFORE the call: written for real"""
+        def __setitem__(self, name, records):
+            data = b"".join(r for r in records if isinstance(r, (bytes, bytearray)))
+            with open(name, "wb") as f_:
+                f_.write(data)
+            preseeded[name] = data
+            dict.__setitem__(self, name, records)
+
+    preseeded = {}
+
     class NCtx:
         def __init__(self):
             self.g = g
             self.p = p
             self.cfg = cfg
             self.w = types.SimpleNamespace(modules=sys.modules, import_module=importlib.import_module, environ=os.environ,
-                                           loop_hooks={}, use_contracts=False, stdout=[])
+                                           loop_hooks={}, use_contracts=False, stdout=[], fs=_PreFs(), stale_tail={})
             self.honest_value = {}
             self.entry = None
 
@@ -438,10 +449,15 @@ def main():
         # files the real code wrote into the scratch cwd, as the contract's ghost disk
         c.w.fs = {}
         c.w.io_events = []
+        c.w.stale_tail = {}
         for fn_ in os.listdir("."):
             if os.path.isfile(fn_) and fn_ not in ("req.json", "out.json"):
-                c.w.fs[fn_] = [open(fn_, "rb").read()]
+                data_ = open(fn_, "rb").read()
+                c.w.fs[fn_] = [data_]
                 c.w.io_events.append(("close", fn_))
+                pre_ = preseeded.get(fn_)
+                if pre_ and len(data_) >= len(pre_) and data_.endswith(pre_[-16:]):
+                    c.w.stale_tail[fn_] = True          # the earlier file's tail is still there
         rec["files"] = {k: len(v[0]) for k, v in c.w.fs.items()}
         mutated = []
         for o, val, lc, coefs in watched:
